@@ -94,14 +94,18 @@ func c06Stream(r *hx.Rand, tier string, n int, w *bufio.Writer) map[string]int {
 			}
 		}
 		if r.Chance(evChance) {
-			evWhen = hx.Pick(r, "before", "mid")
+			evWhen = hx.Pick(r, "before", "mid", "inside", "inside")
 			if evWhen == "before" {
 				evName = h.event(r, prov)
 			}
 		}
+		var inside *c06Inside // a rotation scheduled INSIDE the token-issuing request (c06hist.go)
 		preIssue := func() {
 			if evWhen == "mid" && evName == "none" {
 				evName = h.event(r, prov)
+			}
+			if evWhen == "inside" && inside == nil {
+				inside = h.scheduleInside(r, prov)
 			}
 		}
 		h.step++
@@ -292,6 +296,15 @@ func c06Stream(r *hx.Rand, tier string, n int, w *bufio.Writer) map[string]int {
 			tokenResp = bed.Do(bed.Form("/oauth/token", url.Values{"grant_type": {"client_credentials"}, "scope": {scopeSet}}, ownAuth(sy, fc))).JSON
 			reqSubject = fc.c.ID
 		}
+		if inside != nil {
+			inside.finish(bed.Store)
+			if inside.fired {
+				evName = inside.ev
+			} else {
+				evWhen = "-" // the request made fewer storage calls / no such call: nothing happened
+				stats["inside-rotation-not-reached"]++
+			}
+		}
 		str := func(k string) string {
 			s, _ := tokenResp[k].(string)
 			return s
@@ -319,6 +332,14 @@ func c06Stream(r *hx.Rand, tier string, n int, w *bufio.Writer) map[string]int {
 		// the history this issuance belongs to, the key-change event of this step, and the signing key the reference storage returns NOW
 		l.I("h.id", int64(h.id)).I("h.step", int64(h.step)).I("h.steps", int64(h.steps)).I("h.prov", int64(prov)).I("h.nprov", int64(len(h.beds))).
 			S("h.ev", evName).S("h.when", evWhen).I("k.cur", int64(cur.k.No)).S("k.kid", cur.kid).S("k.alg", cur.alg)
+		atAlgs := []string{sgAlg}
+		if inside != nil && inside.fired {
+			// the key that was current when the request began (it stays published), where the rotation fell, and the storage calls of the request
+			l.L("k.also", []string{fmt.Sprintf("%d/%s", inside.prev.k.No, inside.prev.alg)}).I("k.prev", int64(inside.prev.k.No)).S("k.prevkid", inside.prev.kid).
+				S("k.prevalg", inside.prev.alg).S("h.sched", inside.spec).I("h.at", int64(inside.at)).S("h.atcall", inside.method).
+				I("h.sigbefore", int64(inside.sigBefore)).S("j.calls", strings.Join(inside.calls, "+"))
+			atAlgs = append(atAlgs, inside.prev.alg)
+		}
 		if idToken == "" && accessToken == "" {
 			l.S("obs", "no-tokens")
 			stats["no-tokens-"+flow]++
@@ -413,7 +434,7 @@ func c06Stream(r *hx.Rand, tier string, n int, w *bufio.Writer) map[string]int {
 		// ---- the access token
 		if accessToken != "" {
 			if strings.Count(accessToken, ".") == 2 {
-				av := op.NewAccessTokenVerifier(opbed.Issuer, &op.OpenIDKeySet{Storage: bed.Storage}, op.WithSupportedAccessTokenSigningAlgorithms(sgAlg))
+				av := op.NewAccessTokenVerifier(opbed.Issuer, &op.OpenIDKeySet{Storage: bed.Storage}, op.WithSupportedAccessTokenSigningAlgorithms(atAlgs...))
 				ac, aerr := op.VerifyAccessToken[*oidc.AccessTokenClaims](context.Background(), accessToken, av)
 				l.B("o.jwtat", true).B("o.atverifies", aerr == nil)
 				sno, skid, salg := c06SignedBy(accessToken)
@@ -490,6 +511,14 @@ func c06Stream(r *hx.Rand, tier string, n int, w *bufio.Writer) map[string]int {
 		if evName != "none" {
 			stats["key-event-"+evName+"-"+evWhen]++
 			stats["key-event-in-flow-"+flow]++
+		}
+		if inside != nil && inside.fired {
+			stats["inside-before-"+inside.method]++
+			stats["inside-in-flow-"+flow]++
+			stats[fmt.Sprintf("inside-after-%d-SigningKey-calls", inside.sigBefore)]++
+			if hx.HashFamily(inside.prev.alg) != hx.HashFamily(cur.alg) {
+				stats["inside-hash-function-changes"]++
+			}
 		}
 		if strings.Count(accessToken, ".") == 2 {
 			stats["restrict-"+restrict+"-with-jwt-at"]++
